@@ -115,7 +115,7 @@ PROPS = {
              "plans = fault-script sweep (all scripts over {FULL,SHORT,EINTR}^<=3 on the first reads and {FULL,SHORT,EINTR,EAGAIN}^<=3 on the first writes x 8 payload sizes from 5 to 20000 bytes incl. exact multiples of the 4096-byte chunk) "
              "followed by seeded lifecycles of 1 server + 1..3 client tasks with per-call fault scripts (socket/bind/listen/connect/accept/read/write/close outcomes), listeners on taken addresses, open retries and seeded schedules; "
              "Since rounds 10-11: the sweep has three passes (A: scripts of length <= 3 with a receive queue that holds everything; B: the same with a 1 kB queue; C: all scripts of length 4), EINTR/EAGAIN faults may be bursts of 2..130 identical answers. distinct = distinct trace hash (every simulated call outcome and scheduling decision is hashed); non-trivial = plan has >= 3 operations",
-             probes=["fault_burst", "sweep_plan", "accept_ok", "send_true", "recv_over_4096", "dup_ok", "open_failed", "accept_failed", "run_ended_blocked", "run_completed",
-                     "recv_ended_at_eof", "recv_ended_on_error", "send_partially_delivered", "natural_eagain_on_write", "dup_without_descriptor", "sender_nonblocking_through_its_copy"]),
+             probes=["done_object_kept", "descriptors_numbered_from_zero", "select_interrupted", "fault_burst", "sweep_plan", "accept_ok", "send_true", "recv_over_4096", "dup_ok", "open_failed", "accept_failed", "run_ended_blocked", "run_completed",
+                     "recv_ended_at_eof", "recv_ended_on_error", "send_partially_delivered", "natural_eagain_on_write"]),
     "T00": P(["asan"], 3, 10, "selftest: random allocator traffic; distinct = distinct trace hash among runs with >= 3 ops"),
 }
